@@ -454,8 +454,10 @@ def input_spec_of(world, name):
 
 
 def execute_cli(case, cli=None, budget=6000, names=None, path=None, solution_path=None, layout='case'):
-    """cli: {'prompt': bool, 'writeback': bool, 'solution': bool, 'garble': {str(k): [texts]},
-             'interrupt': None | [k, 'ctrlc'|'eof'|'ctrlc_retry'|'eof_retry'], 'form_order': seed|None}
+    """Synthetic case through `habutax solve`.
+    cli: {'prompt': bool, 'writeback': bool, 'solution': bool, 'garble': {str(k): [texts]},
+          'interrupt': None | [k, 'ctrlc'|'eof'|'ctrlc_retry'|'eof_retry'], 'form_order': seed|None}
+    names: inputs to write into the file first; False = leave the file at `path` as it is.
     Returns RealRun (+ .stdout, .file_after (text or None), .kind, .stdin_log)."""
     cli = dict(cli or {})
     classes, enums = synth.build_classes(case['world'])
@@ -464,13 +466,8 @@ def execute_cli(case, cli=None, budget=6000, names=None, path=None, solution_pat
     path = path or os.path.join(d, 'cli_in.ini')
     if names is not False:
         write_input_file(case, path=path, names=names, layout=layout)
-    sched = case['sched']
     supplied0 = names if names is not False else cli.get('supplied0', [])
-    m = mon.Monitor(supplied=supplied0, dup_demand=case.get('dup', False))
-    rec = seams.Recorder(budget=budget, sched_seed=sched[0], period=sched[1], monitor=m)
     persona = case['persona']
-    garble = cli.get('garble') or {}
-    interrupt = cli.get('interrupt')
 
     def answer(name):
         p = persona.get(name)
@@ -478,21 +475,35 @@ def execute_cli(case, cli=None, budget=6000, names=None, path=None, solution_pat
             raise core.HarnessError(f'prompt for {name}, which the persona does not know')
         return p['text']
 
+    req = list(case['requested'])
+    if cli.get('form_order') is not None:
+        core.Rng(core.h64('form_order', cli['form_order'])).shuffle(req)
+    cli.setdefault('prompt', case['prompt'])
+    return cli_session(synth.SYNTH_YEAR, req, path, answer, case['sched'], cli, supplied0,
+                       year_forms={synth.SYNTH_YEAR: classes}, dup=case.get('dup', False), budget=budget,
+                       solution_path=solution_path)
+
+
+def cli_session(year, requested, path, answer, sched, cli, supplied0, year_forms=None, dup=False, budget=6000,
+                solution_path=None, cpu_s=60.0):
+    """One `habutax solve` invocation in-process with scripted stdin."""
+    d = scratch_dir()
+    m = mon.Monitor(supplied=supplied0, dup_demand=dup)
+    rec = seams.Recorder(budget=budget, sched_seed=sched[0], period=sched[1], monitor=m)
+    garble = cli.get('garble') or {}
+    interrupt = cli.get('interrupt')
+
     def script(k, name):
-        step = {'garble': list(garble.get(str(k), [])), 'action': 'answer'}
+        step = {'garble': list(garble.get(name) or garble.get(str(k)) or []), 'action': 'answer'}
         if interrupt is not None and k >= interrupt[0]:
             step['action'] = interrupt[1]
         return step
 
     stdin = ScriptedStdin(answer, script)
-    argv = ['solve', path, '--year', str(synth.SYNTH_YEAR)]
-    req = list(case['requested'])
-    if cli.get('form_order') is not None:
-        core.Rng(core.h64('form_order', cli['form_order'])).shuffle(req)
-    for r in req:
+    argv = ['solve', path, '--year', str(year)]
+    for r in requested:
         argv += ['--form', r]
-    prompt = cli.get('prompt', case['prompt'])
-    if prompt:
+    if cli.get('prompt'):
         argv.append('--prompt-missing')
     if cli.get('writeback'):
         argv.append('--writeback-input')
@@ -501,12 +512,12 @@ def execute_cli(case, cli=None, budget=6000, names=None, path=None, solution_pat
         if os.path.exists(solution_path):
             os.remove(solution_path)
         argv += ['--solution', solution_path]
-    kind, exc, out = run_cli(argv, stdin=stdin, rec=rec, year_forms={synth.SYNTH_YEAR: classes})
+    kind, exc, out = run_cli(argv, stdin=stdin, rec=rec, year_forms=year_forms, cpu_s=cpu_s)
     run = RealRun()
     run.rec, run.monitor, run.stdout, run.kind = rec, m, out, kind
     run.stdin_log = stdin.log
-    run.requested, run.field_names = list(req), []
     run.stdin_calls = stdin.calls
+    run.requested, run.field_names = list(requested), []
     run.argv = argv
     if kind == 'return':
         if '\nSuccessfully solved!' in out:
